@@ -6,8 +6,15 @@ case = {
   'headers': [[name, value], ...]        request header list exactly as sent (HTTP/2 validation is off)
   'card':    'UU'|'US'|'SU'|'SS'
   'body':    {'msgs': n, 'partial': bool, 'eof': bool, 'framing': 'one'|'split'|'sep'}
-  'ops':     ['R'|'I'|'M'|'C'|'S'|['T', code, msg|None], ...]      the handler program
-  'fin':     ['ret'] | ['grpc', code, msg|None] | ['exc'] | ['base'] | ['wait']
+  'ops':     ['R'|'I'|'M'|'C'|'S'|'P'|['T', code, msg|None], ...]      the handler program
+             'I!a' 'M!a' ['T', code, msg, 'a']: the call is given an argument that fails part-way (invalid user
+             metadata {'Bad Key': 'x'} / a non-ASCII metadata value / a message the codec refuses);
+             'I!h' 'M!h' ['T', code, msg, 'h']: a listener registered with grpclib.events.listen raises in it;
+             'P': the transport is paused here (pause_writing), so the next sending call waits for write_ready;
+             the environment resumes writing once the handler coroutine has ended
+  'fin':     ['ret'] | ['grpc', code, msg|None] | ['exc'] | ['exc', 'timeout'|'streamterm'|'protocol'] |
+             ['base'] | ['wait']       (exc kinds: RuntimeError, the handler's OWN asyncio.TimeoutError,
+             StreamTerminatedError (e.g. from a client call it made), grpclib ProtocolError)
   'policy':  'honour' | 'swallow'        what the handler does with a CancelledError at an await
   'fin2':    like fin (never 'wait'); how a swallowing handler ends
   'ext':     'none'|'reset'|'close'      what the environment does (client RST_STREAM / Server.close())
@@ -44,6 +51,10 @@ class HandlerBase(BaseException):
     """a BaseException that is neither Exception nor CancelledError (KeyboardInterrupt-like)"""
 
 
+class HookError(RuntimeError):
+    """raised by a listener"""
+
+
 def _status(code):
     from grpclib.const import Status
     return Status(code)
@@ -59,6 +70,8 @@ def exc_class(e):
         return 'h2err'                   # StreamClosedError or h2's state machine
     if isinstance(e, AssertionError):
         return 'assert'
+    if isinstance(e, (ValueError, TypeError, HookError)):
+        return 'error'                   # encode_metadata / the codec / a listener raised part-way
     return 'other:' + type(e).__name__
 
 
@@ -101,7 +114,7 @@ def _run(case, loop):
     ext_at = case.get('ext_at')
     body = case['body']
     st = {'results': [], 'end': None, 'sleeps': 0, 'fired': None, 'started': False, 'where': None,
-          'phase': 'ops', 'cause': None}
+          'phase': 'ops', 'cause': None, 'hook': None, 'finished': False}
     box = {}
 
     def fire():
@@ -124,7 +137,16 @@ def _run(case, loop):
             st['end'] = tag + 'grpc'
             raise GRPCError(_status(f[1]), f[2])
         if f[0] == 'exc':
-            st['end'] = tag + 'exc'
+            kind = f[1] if len(f) > 1 else 'exc'
+            st['end'] = tag + kind
+            if kind == 'timeout':
+                raise asyncio.TimeoutError('the handler\'s own timeout')
+            if kind == 'streamterm':
+                from grpclib.exceptions import StreamTerminatedError
+                raise StreamTerminatedError('a call made by the handler was terminated')
+            if kind == 'protocol':
+                from grpclib.exceptions import ProtocolError
+                raise ProtocolError('raised by the handler')
             raise RuntimeError('handler failure')
         if f[0] == 'base':
             st['end'] = tag + 'base'
@@ -136,20 +158,26 @@ def _run(case, loop):
         res = st['results']
         try:
             for op in ops:
-                k = op if isinstance(op, str) else op[0]
+                k = op[0]
+                mode = (op[2] if len(op) == 3 else None) if isinstance(op, str) else (op[3] if len(op) > 3 else None)
                 st['where'] = k
+                st['hook'] = k if mode == 'h' else None
                 try:
                     if k == 'R':
                         m = await stream.recv_message()
                         res.append('eof' if m is None else 'msg')
                     elif k == 'I':
-                        await stream.send_initial_metadata()
+                        await stream.send_initial_metadata(metadata={'Bad Key': 'x'} if mode == 'a' else None)
                         res.append('ok')
                     elif k == 'M':
-                        await stream.send_message(REPLY)
+                        await stream.send_message(12345 if mode == 'a' else REPLY)
                         res.append('ok')
                     elif k == 'T':
-                        await stream.send_trailing_metadata(status=_status(op[1]), status_message=op[2])
+                        await stream.send_trailing_metadata(status=_status(op[1]), status_message=op[2],
+                                                            metadata=[('k', 'caf\xe9')] if mode == 'a' else None)
+                        res.append('ok')
+                    elif k == 'P':
+                        box['se'].transport.pause()
                         res.append('ok')
                     elif k == 'C':
                         await stream.cancel()
@@ -165,6 +193,8 @@ def _run(case, loop):
                         raise AssertionError(op)
                 except Exception as e:
                     res.append(exc_class(e))
+                finally:
+                    st['hook'] = None
             st['where'] = 'fin'
             if fin[0] == 'wait':
                 await asyncio.sleep(2.0 ** 40)
@@ -180,8 +210,24 @@ def _run(case, loop):
                 raise
             do_fin(fin2, 'swallow-')
 
-    se = wire.ServerEnd(loop, [Service('v.S', {'M': (handler, case['card'])})])
+    async def handler_outer(stream):
+        try:
+            await handler(stream)
+        finally:
+            st['finished'] = True
+
+    se = wire.ServerEnd(loop, [Service('v.S', {'M': (handler_outer, case['card'])})])
     box['se'] = se
+    from grpclib.events import listen, SendInitialMetadata, SendMessage, SendTrailingMetadata
+
+    def hook(kind):
+        async def cb(event):
+            if st['hook'] == kind:
+                raise HookError('listener failure')
+        return cb
+    listen(se.server, SendInitialMetadata, hook('I'))
+    listen(se.server, SendMessage, hook('M'))
+    listen(se.server, SendTrailingMetadata, hook('T'))
     se.server._server = type('S', (), {'close': lambda s: None, 'wait_closed': None})()
     se.server._server_closed_fut = loop.create_future()
     loop.run_quiet(1.0)
@@ -219,14 +265,18 @@ def _run(case, loop):
 
     def running():
         return task is not None and not task.done()
-    if running() and ext != 'none' and st['fired'] is None:
+    if running() and not st['finished'] and ext != 'none' and st['fired'] is None:
         st['phase'] = 'ext'
         fire()
         loop.run_quiet(4.0)
-    if running():
+    if running() and not st['finished']:
         # only a deadline can still end this call: let virtual time pass (finite horizon)
         st['phase'] = 'deadline'
         loop.run_quiet(4000.0)
+    if se.transport.paused and st['finished']:
+        # the handler coroutine has ended; the environment lets the server write again
+        se.transport.resume()
+        loop.run_quiet(4.0)
     hang = running()
     frames = canon_events(peer.take_events(), sid)
     obs = {
